@@ -92,7 +92,8 @@ def _(c):
 def _(c):
     c.prop('C10')
     c.ensures('len(ui_trace()) == old(len(ui_trace())) + 1 and ui_trace()[old(len(ui_trace()))] == 2', 'requests_resume_once')
-    c.modifies('ui')
+    c.ensures('ui_state() is None or ui_state()._paused == False', 'registered_ui_state_resumed')
+    c.modifies('ui', 'when(ui_state() is not None, ui_state()._paused)')
     c.epoch_preserving()
 
 
@@ -100,7 +101,8 @@ def _(c):
 def _(c):
     c.prop('C10')
     c.ensures('len(ui_trace()) == old(len(ui_trace())) + 1 and ui_trace()[old(len(ui_trace()))] == 3', 'requests_quit_once')
-    c.modifies('ui')
+    c.ensures('ui_state() is None or ui_state()._should_quit == True', 'registered_ui_state_quits')
+    c.modifies('ui', 'when(ui_state() is not None, ui_state()._should_quit)')
     c.epoch_preserving()
 
 
